@@ -121,6 +121,7 @@ func c16(e *Env) {
 	e.spawnRules("R5", "R5")
 	e.connectRule("R6")
 	e.portDiscovery("R7")
+	e.disconnectRule("R4")
 }
 
 // forAllOutputs2 is kept as an alias: forAllOutputs now judges early exits by what happens after them.
@@ -315,6 +316,59 @@ func (e *Env) c16Closure() {
 				}
 				if (strings.Contains(gd, "op!=") || strings.HasPrefix(gd, "!op==")) && strings.Contains(gd, argS) {
 					visited = true // identity test against the current process
+				}
+			}
+			// polarity of the visited test, by scenario on the lookup itself: "absent" leads into the recursion,
+			// "present" does not (before the next connection is looked at)
+			if visited {
+				for _, gd := range g.Guards(c, xs) {
+					if gd.If == nil {
+						continue
+					}
+					var lk *ssa.Lookup
+					var walk func(v ssa.Value, d int)
+					walk = func(v ssa.Value, d int) {
+						if d > 4 || lk != nil {
+							return
+						}
+						switch y := v.(type) {
+						case *ssa.Lookup:
+							if y.CommaOk {
+								lk = y
+							}
+						case *ssa.Extract:
+							walk(y.Tuple, d+1)
+						case *ssa.UnOp:
+							walk(y.X, d+1)
+						}
+					}
+					walk(gd.If.Cond, 0)
+					if lk == nil || lk.Parent() != c.Ctx.Fn {
+						continue
+					}
+					ln := g.NodeOf(c.Ctx, lk)
+					if ln == nil {
+						continue
+					}
+					isRec := func(m *core.Node) bool { return m == c }
+					var stop func(m *core.Node) bool
+					if len(las) > 0 {
+						if test, _, okT := g.LoopTest(las[0]); okT {
+							stop = func(m *core.Node) bool { return m == test }
+						}
+					}
+					absent := g.Run(core.Scenario{Start: ln, Result: core.TupleAV(core.Top, core.BoolAV(false))})
+					present := g.Run(core.Scenario{Start: ln, Result: core.TupleAV(core.Top, core.BoolAV(true))})
+					if absent.ReachesAvoiding(isRec, stop) == nil {
+						visited = false
+						ob3.Fail(g.Where(c), "the visited test has the wrong polarity: a process that is NOT yet in the closure is not recursed into (only direct upstream processes are run; theirs are missing and their consumers block forever)")
+					} else if present.ReachesAvoiding(isRec, stop) != nil {
+						visited = false
+						ob3.Fail(g.Where(c), "the visited test does not stop the recursion for a process that is already in the closure (a process upstream of itself recurses until the stack overflows)")
+					}
+				}
+				if !visited {
+					continue
 				}
 			}
 			switch {
